@@ -1125,7 +1125,7 @@ static int json_object_double_to_json_string_format(struct json_object *jso, str
 		    is_plain_digit(buf[0]) || (size > 1 && buf[0] == '-' && is_plain_digit(buf[1]));
 
 		if (size < (int)sizeof(buf) - 2 && looks_numeric && !p && /* Has no decimal point */
-		    strchr(buf, 'e') == NULL && /* Not scientific notation */
+		    strpbrk(buf, "eE") == NULL && /* Not scientific notation */
 		    format_drops_decimals)
 		{
 			// Ensure it looks like a float, even if snprintf didn't,
